@@ -424,6 +424,11 @@ class VectorizedOptimizer(Generic[_S]):
           prior_rewards,
           -jnp.inf * jnp.ones_like(prior_rewards),
       )
+      # A prior point whose score is NaN carries no information: treat it like a
+      # padded one, so that it cannot displace (or shield) other prior points.
+      prior_rewards = jnp.where(
+          jnp.isnan(prior_rewards), -jnp.inf, prior_rewards
+      )
 
     def _optimization_one_step(_, args):
       jax.monitoring.record_event(
